@@ -292,6 +292,7 @@ def cut_loop(ex: Exec, node, fr, spec: LoopSpec, n, item_at):
         p.assume(clause_truth(ex, inv, env, mi))
     if choice == 0:
         p.assume(kk.t < nt)
+        p.ghost.setdefault("loop_k", []).append(kk)
         ex.assign(node.target, item_at(kk), fr)
         if spec.split is not None:
             sv = eval_clause(ex, spec.split[0], fr.env, mi)
@@ -420,7 +421,12 @@ def verify_scenario(world: World, ct: Contract, sc: Scenario, budget_ms=400, max
                 ex.measure_entry = eval_clause(ex, ct.decreases, cenv, fv.mi)
             raised = None
             try:
-                result = ex.run_body(fv, dict(env))
+                fenv = ex.bind_args(fv, [], {k: v for k, v in env.items() if not k.startswith("ghost_")})  # fills defaults
+                fenv.update(ghost)
+                fenv.update({k: v for k, v in cenv.items() if k.startswith("old_")})  # entry snapshots for loop invariants
+                for k, v in fenv.items():
+                    cenv.setdefault(k, v)
+                result = ex.run_body(fv, fenv)
             except PyRaise as pr:
                 raised = pr
             renv = dict(cenv)  # raise conditions speak about the entry state
